@@ -125,9 +125,10 @@ func (c16) Run(c *core.Ctx) {
 	// ---- an env file shared by two services: its references resolve per service (each against that service's own earlier files)
 	for order := 0; order < 2; order++ {
 		for discard := 0; discard < 2; discard++ {
-			for rot := uintptr(0); rot < 4; rot++ {
-				order, discard, rot := order, discard, rot
-				id := fmt.Sprintf("shared-file/o%d/d%d/r%d", order, discard, rot)
+			for rot := uintptr(0); rot < 8; rot++ {
+				// rotations 4..7: the same with WHO also defined by the project environment
+				order, discard, rot, pe := order, discard, rot%4, rot >= 4
+				id := fmt.Sprintf("shared-file/o%d/d%d/r%d/pe%v", order, discard, rot, pe)
 				c.Do(id, func() core.Outcome {
 					files := map[string]string{"a.env": "WHO=a\n", "b.env": "WHO=b\n", "shared.env": "GREETING=hello-${WHO}\nPLAIN=p\n"}
 					svcs := []string{"  a:\n    image: i\n    env_file: [./a.env, ./shared.env]\n", "  b:\n    image: i\n    env_file: [./b.env, ./shared.env]\n"}
@@ -136,6 +137,9 @@ func (c16) Run(c *core.Ctx) {
 					}
 					files["compose.yaml"] = "services:\n" + svcs[0] + svcs[1] + "  c:\n    image: i\n    env_file: [./shared.env]\n    environment: {WHO: c}\n"
 					s := &Scn{Files: files, Main: []string{"compose.yaml"}}
+					if pe {
+						s.Env = map[string]string{"WHO": "pe"}
+					}
 					if discard == 1 {
 						s.Opts = []func(*loader.Options){loader.WithDiscardEnvFiles}
 					}
@@ -147,7 +151,20 @@ func (c16) Run(c *core.Ctx) {
 					if err != nil {
 						return core.Outcome{Class: "err", Sample: sample, Viol: &core.Violation{Key: "env:spurious-error", Msg: id + ": " + err.Error()}}
 					}
+					// service c has no earlier file of its own: the reference resolves against the project environment only
+					// (never against what the env files of other services define, nor its own `environment` entries)
+					wantC := "hello-"
+					if pe {
+						wantC = "hello-pe"
+					}
+					if got := p.Services["c"].Environment["GREETING"]; got == nil || *got != wantC {
+						return core.Outcome{Class: "wrong", Sample: sample, Viol: &core.Violation{Key: "env:file-reference-sees-another-service",
+							Msg: fmt.Sprintf("%s: service c has GREETING=%s, expected %s (WHO is defined by no env file of c)", id, ptrStr(got), wantC)}}
+					}
 					for _, n := range []string{"a", "b"} {
+						if pe {
+							break // which of project environment and own earlier file a reference prefers is not stated
+						}
 						got := p.Services[n].Environment["GREETING"]
 						if got == nil || *got != "hello-"+n {
 							return core.Outcome{Class: "wrong", Sample: sample, Viol: &core.Violation{Key: "env:shared-file-resolved-for-another-service",
